@@ -131,6 +131,7 @@ inductive Obs where
 
 structure Acc where
   s : St
+  /-- announced calls: task, body, `dispatch_blocking`? -/
   intents : List (Nat × Body × Bool) := []
   /-- look-ahead: the worker each task is (later) seen to start on -/
   dest : List (Nat × Nat) := []
@@ -195,21 +196,23 @@ def Acc.finishN : Nat → Acc → Nat → Nat → Acc
     | _ => a
 
 def Acc.stepObs (a : Acc) : Obs → Acc
-  | .intent t b bomb => { a with intents := (t, b, bomb) :: a.intents }
-  | .bintent t b => { a with intents := (t, b, false) :: a.intents }
+  | .intent t b _ => { a with intents := (t, b, false) :: a.intents }
+  | .bintent t b => { a with intents := (t, b, true) :: a.intents }
   | .acc t =>
     match a.s.stat t, a.bodyOf t with
-    | .absent, some (b, _) =>
+    | .absent, some (b, blocking) =>
       if a.s.rejected.contains t then a.fail s!"accepted-twice {t}" else
-      let a := a.fire (.dispatch 0 t b) s!"accepted-after-join {t}"
+      let a := if blocking then a.fire (.dispatchBlocking 0 t b true) s!"accepted-after-join {t}"
+        else a.fire (.dispatch 0 t b) s!"accepted-after-join {t}"
       if a.s.accepted.contains t then a else a.fail s!"accepted-without-receiver {t}"
     | .absent, none => a.fail s!"unknown-task {t}"
     | _, _ => a
   | .rej t =>
     let a := a.flushDying
     match a.s.stat t, a.bodyOf t with
-    | .absent, some (b, _) =>
-      let a := a.fire (.dispatch 0 t b) s!"rejected-after-join {t}"
+    | .absent, some (b, blocking) =>
+      let a := if blocking then a.fire (.dispatchBlocking 0 t b false) s!"rejected-after-join {t}"
+        else a.fire (.dispatch 0 t b) s!"rejected-after-join {t}"
       if a.s.rejected.contains t then a else a.fail s!"rejected-with-live-worker {t}"
     | .absent, none => a.fail s!"unknown-task {t}"
     | _, _ => a.fail s!"rejected-but-started {t}"
